@@ -430,6 +430,14 @@ def _evaluate(state, fn, args_for_snapshot):
     if changed:
         i = changed[0]
         detail = "argument %d changed: before %s after %s" % (i, str(before[i])[:300], str(after[i])[:300])
+    # ... and so were all the *other* objects the caller owns in this process
+    # (arrays, dictionaries and data sets handed to earlier calls): a library that
+    # kept a reference must not write through it later
+    if detail is None:
+        for label, obj, pristine in _caller_objects(state):
+            if _snap(obj) != pristine:
+                detail = "caller-owned %s, not an argument of this call, was modified by it" % label
+                break
     # results handed to the caller earlier must not change under later calls
     held = state.setdefault("held", [])
     overwritten = None
@@ -442,6 +450,37 @@ def _evaluate(state, fn, args_for_snapshot):
         held.append((state["nev"] - 1, raw, out[1]))
         del held[:-4]
     return {"result": out, "args_changed": detail, "overwritten": overwritten}
+
+
+def _caller_objects(state):
+    """Every long-lived object the simulated caller owns in this process, with
+    the snapshot taken when it was created."""
+    reg = state.setdefault("caller_registry", {})
+    found = []
+    for name, arr in _QCACHE.items():
+        if name != "owner":
+            found.append(("q array %s" % name, arr))
+    for kind, data in _DCACHE.items():
+        if kind != "owner":
+            found.append(("data object %s" % kind, data))
+    for key, pair in _ACACHE.items():
+        if key != "owner":
+            found.append(("distribution table values %s" % key[0], pair[0]))
+            found.append(("distribution table weights %s" % key[0], pair[1]))
+    for (model, key), d in state.get("pars", {}).items():
+        found.append(("parameter dict %s/%s" % (model, key), d))
+    out = []
+    for label, obj in found:
+        if id(obj) not in reg:
+            if label.startswith("parameter dict"):
+                model, key = label[len("parameter dict "):].split("/", 1)
+                reg[id(obj)] = _snap(dict(PARS[model][key]))
+            elif label.startswith("q array"):
+                reg[id(obj)] = _snap(np.array(QARRAYS[label.split()[-1]], dtype="d"))
+            else:
+                reg[id(obj)] = _snap(obj)
+        out.append((label, obj, reg[id(obj)]))
+    return out
 
 
 def _pars_obj(state, model, key):
